@@ -149,7 +149,22 @@ def namespace(solver: Solver, taus: List[SQ]) -> Dict[str, Any]:
                "lstsq": solver.lstsq, "pinv": solver.pinv, "inv": solver.inv,
                "_generate_time_constants": lambda w, num_RC, log_F_ext: list(taus)})
     ns.update(element_classes(ns))
+    # tolerance-based comparisons are not used by the code under contract.  They are modelled so that introducing one is a refuted
+    # obligation (see check_exact) instead of an unknown name: at the generic point a value is non-zero and not "close" to anything
+    tests: List[str] = []
+    ns["__tolerance_tests__"] = tests
+    ns["isclose"] = lambda a, b, *r, **k: tests.append("isclose") or False
+    ns["allclose"] = lambda a, b, *r, **k: tests.append("allclose") or False
     return ns
+
+
+def check_exact(sess, ns: Dict[str, Any], where: str = ""):
+    """the meaning of a fitted variable (zero -> open/short element, otherwise its reciprocal, ...) is decided by exact tests only:
+    a tolerance would make the result depend on the units of the data (C09) and lose small but non-zero parameters (C07)"""
+    used = ns.get("__tolerance_tests__", [])
+    ob = sess.check("post", [], z3.BoolVal(not used), 0, label=f"fitted variables are classified exactly, no tolerance-based test (isclose/allclose) decides what a value means{where}")
+    if used:
+        ob.detail = f"called: {sorted(set(used))}"
 
 
 def b_as_col(b) -> SymCol:
